@@ -27,7 +27,7 @@ def ctx_constant(dump):
     if dump["comments"] is not None:
         return False
     for n in dump["nodes"]:
-        if n["ws"] is not None or n["skipws"] is not None or n["eolterm"] or n["kind"] == "KUnord":
+        if n["ws"] is not None or n["skipws"] is not None or n["eolterm"]:
             return False
     return True
 
